@@ -695,6 +695,22 @@ func runCaseRaw(c Case, tmp string, res *lib.Result) []string {
 			}
 		}
 		terms = append(terms, fmt.Sprintf("CExp %s %d %s", lib.CoqList(cont), cc.id(g.Root.Digest), lib.CoqList(order)))
+		// the Docker RepoTags entry against the reference model (Proofs/C09t.v: repo_tag), when the export reference is a registry reference
+		if (g.Root.Kind == "image" || g.Root.Kind == "artifact") && (c.ExpRef || !c.SrcDir) {
+			refText := srcName
+			if c.ExpRef {
+				refText = wantName
+			}
+			for _, e := range ents {
+				if e.Name != "manifest.json" {
+					continue
+				}
+				var dm []struct{ RepoTags []string }
+				if json.Unmarshal(e.Data, &dm) == nil && len(dm) == 1 && len(dm[0].RepoTags) == 1 {
+					terms = append(terms, fmt.Sprintf("CTag %s%%string %s%%string", lib.CoqStr(refText), lib.CoqStr(dm[0].RepoTags[0])))
+				}
+			}
+		}
 	}
 	// ---- transform ----
 	expectOK := true
@@ -1264,7 +1280,7 @@ func Run(o lib.Opts) {
 		return
 	}
 	r := lib.NewRand(o.Seed)
-	cw := lib.NewCaseWriter(o.Out, "C09", "From Coq Require Import List Arith.\nFrom Verif Require Import Model.C09_Import Corr.C09.\nImport ListNotations.", "case", 300)
+	cw := lib.NewCaseWriter(o.Out, "C09", "From Coq Require Import List Arith String.\nFrom Verif Require Import Model.C09_Import Corr.C09.\nImport ListNotations.", "case", 300)
 	all := []Case{
 		{Kind: "rt", Seed: 21, Special: "unknown-mt-entry", Sel: "tag"},
 		{Kind: "docker", Seed: 22, Style: "legacy", Images: 1, Sel: "tag"},
